@@ -306,7 +306,17 @@ func seqCase(ctx context.Context, w *run.Worker, c *run.Case) {
 				w.Count("reads_notfound", 1)
 				return
 			}
-			c.Violation("localstore."+op+":unexpected-error-sequential", "%s of %s failed with %v (only NOT_FOUND is expected in a sequential history)", op, km.d, err)
+			if strings.Contains(err.Error(), "Failed to refresh blob") && okAllocErr(err) {
+				// A refresh that needs more free blocks than the geometry has
+				// spare (the read itself pins the block it copies from) is
+				// refused; nothing is returned, so C01 is not concerned.
+				w.Count("reads_refused_refresh_no_space", 1)
+				return
+			}
+			for _, e := range s.Log.Events() {
+				c.Logf("%v", e)
+			}
+			c.Violation("localstore."+op+":unexpected-error-sequential", "%s of %s failed with %v (only NOT_FOUND is expected in a sequential history); open readers %v", op, km.d, err, s.Log.OpenReaders())
 			return
 		}
 		w.Count("reads_with_bytes", 1)
@@ -473,9 +483,15 @@ func seqCase(ctx context.Context, w *run.Worker, c *run.Case) {
 			}
 			set := sb.Build()
 			lossBefore := im.Discards()
+			popsBeforeFM := s.BL.Pops.Load()
 			missing, err := s.BA.FindMissing(ctx, set)
+			rotatedDuringFM := s.BL.Pops.Load() != popsBeforeFM
 			sig.WriteString("F;")
 			if err != nil {
+				if strings.Contains(err.Error(), "Failed to refresh blob") && okAllocErr(err) {
+					w.Count("reads_refused_refresh_no_space", 1)
+					continue
+				}
 				c.Violation("localstore.FindMissing:unexpected-error-sequential", "FindMissing failed with %v", err)
 				continue
 			}
@@ -500,6 +516,10 @@ func seqCase(ctx context.Context, w *run.Worker, c *run.Case) {
 					// stores new entries); retention is C05's business.
 					if asm.IsNotFound(gerr) && im.Discards() > lossBefore {
 						w.Count("present_lost_to_index_discard", 1)
+					} else if asm.IsNotFound(gerr) && rotatedDuringFM {
+						// The call's own refreshes rotated the block list after it
+						// had looked at this digest: legitimately gone (see C05).
+						w.Count("present_lost_to_rotation_inside_findmissing", 1)
 					} else {
 						c.Violation("localstore.FindMissing:present-but-unreadable", "FindMissing reported %s present; the Get right after failed with %v (no index discard reported)", d, gerr)
 					}
@@ -538,7 +558,9 @@ func seqCase(ctx context.Context, w *run.Worker, c *run.Case) {
 			c.Logf("GetFromComposite %s child off=%d size=%d -> %s %v", km.d, pick.Off, pick.Size, gen.Hex8(got), err)
 			sig.WriteString("C;")
 			if err != nil {
-				if !asm.IsNotFound(err) {
+				if strings.Contains(err.Error(), "Failed to refresh blob") && okAllocErr(err) {
+					w.Count("reads_refused_refresh_no_space", 1)
+				} else if !asm.IsNotFound(err) {
 					c.Violation("localstore.GetFromComposite:unexpected-error-sequential", "GetFromComposite failed with %v", err)
 				}
 				continue
@@ -572,6 +594,8 @@ func seqCase(ctx context.Context, w *run.Worker, c *run.Case) {
 				if string(got2) != string(parent[again.Off:again.Off+again.Size]) {
 					c.Violation("localstore.GetFromComposite:wrong-slice", "re-reading child [%d:%d] returned %s", again.Off, again.Off+again.Size, gen.Hex8(got2))
 				}
+			} else if strings.Contains(err2.Error(), "Failed to refresh blob") && okAllocErr(err2) {
+				w.Count("reads_refused_refresh_no_space", 1)
 			} else if !asm.IsNotFound(err2) {
 				c.Violation("localstore.GetFromComposite:unexpected-error-sequential", "re-read of a child failed with %v", err2)
 			}
@@ -654,6 +678,9 @@ func concCase(ctx context.Context, w *run.Worker, c *run.Case) {
 				content = gen.UniqueBlob(uint64(c.Index)<<20|uint64(w.Index)<<40|1<<60, uint64(i), size)
 			}
 		}
+		if len(content) > 0 {
+			content[0] &= 0x7f // fillers have the top bit set: tiny contents must not coincide with them
+		}
 		keys[i] = keyInfo{d: gen.SHA256Digest(inst, content), content: content}
 		if cfg.Sector > 1 && size%cfg.Sector != 0 {
 			w.Count("shared_sector_pairs", 1)
@@ -686,6 +713,9 @@ func concCase(ctx context.Context, w *run.Worker, c *run.Case) {
 					var content []byte
 					if acStyle {
 						content = gen.UniqueBlob(uint64(c.Index)<<20|uint64(w.Index)<<40|2<<60, uint64(uid.Add(1)), genSizeSmall(cr, cfg))
+						if len(content) > 0 {
+							content[0] &= 0x7f
+						}
 					} else {
 						content = k.content
 					}
@@ -747,6 +777,7 @@ func concCase(ctx context.Context, w *run.Worker, c *run.Case) {
 				if cr.Chance(1, 3) {
 					// filler upload to force rotations
 					fc := gen.UniqueBlob(uint64(c.Index)<<20|uint64(w.Index)<<40|3<<60, uint64(uid.Add(1)), int(cfg.BlockBytes())/2+1)
+					fc[0] |= 0x80
 					fd := gen.SHA256Digest(inst, fc)
 					fu := &asm.Upload{Data: fc, Yield: yy}
 					s.BA.Put(ctx, fd, fu.CASBuffer(fd))
